@@ -500,8 +500,17 @@ def run_rand_vars(chk: Check, prog: Program) -> None:
     chk.rule("C17.R8", "get_rand_vars(n, exclude): n results, pairwise distinct, none of them excluded, drawn from the pool "
              "the caller asked for (n <= 3, up to 2 excluded variables, draw sequences of up to n+2 draws)", minimum=30)
     grv = prog.func("problems", "get_rand_vars")
-    for n in (1, 2, 3):
-        for nex in (None, 0, 1, 2):
+    pm = prog.module("problems")
+    try:
+        pool = const_fold(prog, pm, pm.assigns["variables"]) if "variables" in pm.assigns else None
+    except Exception:  # noqa: BLE001 - the pool is only used to pick concrete exclusions
+        pool = None
+    concrete = []
+    if isinstance(pool, (list, tuple)) and len(pool) >= 4 and all(isinstance(x, str) for x in pool):
+        # concrete exclusions: neighbours in the pool, the two ends, one in the middle
+        concrete = [(pool[0], pool[1]), (pool[-2], pool[-1]), (pool[0], pool[2]), (pool[1],), (pool[2], pool[3], pool[4])]
+    for n in (2, 1, 3):     # the concrete exclusions first: they stay cheap whatever the implementation iterates over
+        for nex in (concrete if n == 2 else []) + [None, 0, 1, 2]:
             for common in (False, True):
                 def body(it: Interp, n=n, nex=nex, common=common):
                     it.k = 0
@@ -515,7 +524,24 @@ def run_rand_vars(chk: Check, prog: Program) -> None:
                         return Ident(f"d{it.k}")
                     it.hooks["mathy_core/problems.py:rand_var"] = h
                     it.hooks["ext:random.shuffle"] = lambda it2, path, args, kwargs: None
-                    ex = None if nex is None else Lst([Ident(f"e{i}") for i in range(nex)])
+                    sampled = []
+
+                    def h_sample(it2, path, args, kwargs):
+                        # random.sample(population, k): any k distinct members can come back - the contract holds iff no
+                        # member of the population is excluded
+                        pop = args[0]
+                        k = args[1] if len(args) > 1 else kwargs.get("k")
+                        if not isinstance(pop, Lst) or not isinstance(k, int):
+                            raise Unsupported("random.sample on an abstract population")
+                        if k > len(pop.items):
+                            raise AbsRaise("ValueError", it2.site, "Sample larger than population")
+                        sampled.append(list(pop.items))
+                        return Lst(list(pop.items[:k]))
+                    it.hooks["ext:random.sample"] = h_sample
+                    if isinstance(nex, tuple):
+                        ex = Lst(list(nex))
+                    else:
+                        ex = None if nex is None else Lst([Ident(f"e{i}") for i in range(nex)])
                     kw = {"common_variables": True} if common else {}
                     out = it.call_function(grv, [n, ex], kw)
                     probs = []
@@ -530,6 +556,12 @@ def run_rand_vars(chk: Check, prog: Program) -> None:
                             return a != b
                         ra, rb = it.ident_find(a.name), it.ident_find(b.name)
                         return ra != rb and frozenset([ra, rb]) in it.ident_diseq
+                    for popl in sampled:
+                        for a in popl:
+                            for e in (ex.items if ex is not None else []):
+                                if not known_distinct(a, e):
+                                    probs.append(f"result can be the excluded variable {e!r}: it is still in the population the "
+                                                 f"results are sampled from")
                     for i, a in enumerate(items):
                         for e in (ex.items if ex is not None else []):
                             if not known_distinct(a, e):
@@ -540,7 +572,7 @@ def run_rand_vars(chk: Check, prog: Program) -> None:
                     if any(fl is not common for fl in seen_flags):
                         probs.append(f"rand_var drawn with common_variables={seen_flags} for a request with common_variables={common}")
                     return probs
-                label0 = f"get_rand_vars({n}, {'None' if nex is None else 'exclude ' + str(nex)}{', common_variables=True' if common else ''})"
+                label0 = f"get_rand_vars({n}, {'None' if nex is None else 'exclude ' + (repr(list(nex)) if isinstance(nex, tuple) else str(nex))}{', common_variables=True' if common else ''})"
                 for p in explore(prog, body, {"max_updepth": 0}, max_paths=4000):
                     label = f"{label0} :: {p.cond[-160:] or 'first draws accepted'}"
                     if p.outcome == "return":
